@@ -246,6 +246,42 @@ def tp (fn : String) (a : List String) : Option String := do
       if !Spec.C01.fits o.ctx H d m then none else
       some ("c01.rt\t" ++ opts ++ "\t" ++ desc ++ "\t" ++ encGrid (Spec.C01.write o.ctx H d m defer) ++ "\t" ++ val)
     | _ => none
+  | "w.c07.case", [opts, hd, desc, val, seed] =>
+    -- a VALID written sheet with exactly one data cell replaced by a text no numeric/bool column accepts
+    let o ← decTPOpts? opts
+    let d ← decTDescArg? desc
+    let H ← decNat? hd
+    let k ← decNat? seed
+    match decValRunes? (val.splitOn " ") with
+    | some (.msg m, []) =>
+      if !Spec.C01.fits o.ctx H d m then none else
+      let g := Spec.C01.write o.ctx H d m
+      let numeric (t : Str) : Bool :=
+        !t.isEmpty && (t == Str.ofString "true" || t == Str.ofString "false" ||
+          (t.any Str.isDigit && t.all (fun ch => Str.isDigit ch || ch == 45 || ch == 44 || ch == 59 || ch == 58 || ch == 124 || ch == 61)))
+      let cands := (g.zipIdx.drop 3).flatMap fun (row, r) => (row.zipIdx.filter (fun (t, _) => numeric t)).map fun (_, c) => (r, c)
+      if cands.isEmpty then some "c07.skip" else
+      let (r, c) := cands.getD (k % cands.length) (0, 0)
+      let bad := Str.ofString "x!"
+      let g' := g.set r ((g.getD r []).set c bad)
+      some ("c07.corrupt\t" ++ opts ++ "\t" ++ desc ++ "\t" ++ encGrid g' ++ s!"\t{r}\t{c}")
+    | _ => none
+  | "c07.skip", [] => some "skip"
+  | "o.c07.skip", _ => some "unspec"
+  | "c07.corrupt", [opts, desc, grid, _r, _c] =>
+    let o ← decTPOpts? opts
+    let d ← decTDescArg? desc
+    let g ← decGrid? grid
+    some (encPRes (TableParser.parse o.ctx d o.so g))
+  | "o.c07.corrupt", [_opts, _desc, _grid, r, c, obs] =>
+    -- C07: the error names exactly the corrupted cell (A1) and its content, with an error code
+    let r ← decNat? r; let c ← decNat? c
+    match obs.splitOn " " with
+    | ["err", code, pos, cell, _col] =>
+      let okPos := (decStr? pos) == some (Excel.position r c)
+      let okCell := (decStr? cell) == some (Str.ofString "x!")
+      some (if okPos && okCell && code != "0" then "holds" else "FAILS")
+    | _ => some "FAILS"
   | "c01.rt", [opts, desc, grid, _val] =>
     let o ← decTPOpts? opts
     let d ← decTDescArg? desc
